@@ -299,6 +299,19 @@ def rule_slack(ctx, repo):
             bad.append("%d enabled slack(s) in an island classified as %s (expected %s)" % (k, got, want))
     ctx.check(not bad, "C12.slack", "connectivity/slack-count", "k = 0 -> no slack; 1 -> ok; >= 2 -> multiple (k = 0..5 enumerated; monotone counter)",
               "; ".join(bad), f.W())
+    # the counter belongs to ONE island: it is (re)initialised inside the loop over islands, before the slacks are counted
+    isl = [l for l in ast.walk(fn) if isinstance(l, ast.For) and "island_sets" in src(l.iter)]
+    if not isl:
+        ctx.undecided("C12.slack", "connectivity/per-island-counter", "loop over the islands not recognised", f.W())
+    else:
+        lp0 = isl[0]
+        inits = [st for st in lp0.body if isinstance(st, ast.Assign) and dotted(st.targets[0]) == "nosw"]
+        first_use = next((k for k, st in enumerate(lp0.body) if any(isinstance(x, ast.AugAssign) and dotted(x.target) == "nosw" for x in ast.walk(st))
+                          or any(isinstance(x, ast.Name) and x.id == "nosw" and isinstance(x.ctx, ast.Load) for x in ast.walk(st))), None)
+        ok_init = bool(inits) and (first_use is None or lp0.body.index(inits[0]) < first_use)
+        ctx.check(ok_init, "C12.slack", "connectivity/per-island-counter", "slack counter initialised per island",
+                  "the slack counter `nosw` is not re-initialised at the top of each iteration of the island loop: counts carry over from one "
+                  "island to the next (a slack-less island after one with a slack is not reported; islands after a double-slack one are)", f.W(lp0))
     ok = False
     for lp, e2 in Q.loops(fn, "zip($su, $sb)", "($u, $item)"):
         t = [x for x in ast.walk(lp) if isinstance(x, ast.If)]
@@ -315,6 +328,15 @@ def rule_recheck(ctx, repo):
     ok = bool(t) and any(d.g.guarded_by(n, t[0], "true") for n in d.calls("system.connectivity"))
     ctx.check(ok, "C12.recheck", "TDS.do_switch", "connectivity re-checked after every switching event (check_conn)",
               "islands are no longer re-detected after a switching event", d.W())
+    # ... and by nothing else: any further condition lets some event through without a re-check
+    for cn in d.call_nodes("system.connectivity"):
+        st = next((x for x in walk_noscope(d.fn) if isinstance(x, ast.Expr) and x.value is cn), None)
+        chain = Q.condition_chain(d.fn, st) if st is not None else None
+        extra = [c for c in (chain or []) if hasattr(c, "test") and Q.match("ret is True and self.config.check_conn == 1", c.test) is None
+                 and Q.match("self.config.check_conn == 1", c.test) is None and Q.match("ret is True", c.test) is None and Q.match("ret", c.test) is None]
+        ctx.check(not extra, "C12.recheck", "TDS.do_switch/unconditional", "the re-check depends on `an event fired` and the check_conn option only",
+                  "the re-check is additionally gated by `%s`: an event for which this is false changes the topology without islands and isolated "
+                  "buses being re-detected" % (src(extra[0].test) if extra else ""), d.W(cn))
     p = F.method(repo, "PFlow", "run", "andes/routines/pflow.py")
     t = [tn for tn in p.g.nodes() if p.g.data(tn)["kind"] == "test" and Q.match("self.config.check_conn == 1", p.g.data(tn)["ast"].test)]
     ok = bool(t) and any(p.g.guarded_by(n, t[0], "true") for n in p.calls("self.system.connectivity")) and \
@@ -328,8 +350,8 @@ def run(ctx):
     ctx.rule("C12.series", "connectivity() edge table covers every model injecting into >= 2 buses with its own status/addresses; "
              "symmetric adjacency; degree test; results reset", 8)
     ctx.rule("C12.neutralise", "isolated-bus neutralisation ordering and Bus block layout assumption", 4)
-    ctx.rule("C12.slack", "slack-count classification partitions N into {0, 1, >=2}", 2)
-    ctx.rule("C12.recheck", "connectivity re-checked after events / before power flow", 2)
+    ctx.rule("C12.slack", "slack-count classification partitions N into {0, 1, >=2}; counter per island", 3)
+    ctx.rule("C12.recheck", "connectivity re-checked after events (gated by nothing but event-fired and check_conn) / before power flow", 3)
     ctx.assume("correctness of the Goderya closure loop for all topologies needs loop invariants over sparse-matrix algebra: declined")
     repo = Repo()
     models = elab.load_models()
